@@ -1,2 +1,135 @@
-import NrDaemon.Model.Proc
-/-! C03 — theorems (see DESIGN.md §6). -/
+import NrDaemon.Lemmas.Proc
+/-!
+  C03 — application lifecycle follows the collector's verdicts.
+  The status classification (`Gen.Status.*`) is regenerated from `collector/client.go` on every run.
+-/
+open Gen.Limits
+
+/-- **C03 (still valid iff the run is held).**  A run id presented by an agent is confirmed iff the daemon currently
+holds that run. -/
+theorem C03_still_valid_iff (s : PState) (r : String) (cfg : AppCfg) :
+    (processAppInfo s (some r) cfg).2.1.status = .stillValid ↔ (getRun s r).isSome = true := by
+  unfold processAppInfo
+  cases hv : (getRun s r).isSome with
+  | true => simp [hv]
+  | false =>
+    simp only [hv, Bool.false_eq_true, if_false]
+    constructor
+    · intro h
+      split at h
+      · next app _ =>
+        cases hst : app.state <;> simp [hst] at h
+      · split at h <;> simp at h
+    · intro h; cases h
+
+/-- without a run id an agent is never told "still valid" -/
+theorem C03_no_id_not_valid (s : PState) (cfg : AppCfg) :
+    (processAppInfo s none cfg).2.1.status ≠ .stillValid := by
+  unfold processAppInfo
+  simp only [Bool.false_eq_true, if_false]
+  split
+  · next app _ => cases hst : app.state <;> simp
+  · split <;> simp
+
+/-- **C03 (connected is reported only from the connected state, with the id of the current connect reply).** -/
+theorem C03_connected_reply (s : PState) (rid : Option String) (cfg : AppCfg) (run : String)
+    (h : (processAppInfo s rid cfg).2.1 = { status := .connected, run := run }) :
+    ∃ app, getApp s cfg.handle = some app ∧ app.state = .connected ∧ app.runId = run := by
+  unfold processAppInfo at h
+  have key : ∀ (b : Bool),
+      (if b = true then ((s, ({ status := .stillValid } : AppReplyM), ([] : List Req)) : PState × AppReplyM × List Req)
+       else
+        match getApp s cfg.handle with
+        | some app =>
+          let s := setApp s cfg.handle { app with lastActivity := s.now }
+          let rep : AppReplyM := match app.state with
+            | .connected => { status := .connected, run := app.runId }
+            | .disconnected => { status := .disconnected }
+            | .invalidLicense => { status := .invalidLicense }
+            | _ => { status := .unknown }
+          let (s, reqs) := considerConnect s cfg.handle
+          (s, rep, reqs)
+        | none =>
+          if s.apps.length ≥ AppLimit then (s, { status := .unknown }, [])
+          else
+            let s := setApp s cfg.handle { cfg := cfg, lastActivity := s.now }
+            let (s, reqs) := considerConnect s cfg.handle
+            (s, { status := .unknown }, reqs)).2.1 = { status := .connected, run := run } →
+      ∃ app, getApp s cfg.handle = some app ∧ app.state = .connected ∧ app.runId = run := by
+    intro b hb
+    cases b with
+    | true => simp at hb
+    | false =>
+      simp only [Bool.false_eq_true, if_false] at hb
+      split at hb
+      · next app happ =>
+        refine ⟨app, happ, ?_⟩
+        cases hst : app.state <;> simp [hst] at hb
+        exact ⟨rfl, hb⟩
+      · split at hb <;> simp at hb
+  exact key _ h
+
+/-- **C03 (connect gating).**  A connect is launched only for an application in the unknown state whose last
+attempt is at least the back-off (30 s, regenerated) in the past; otherwise nothing is sent. -/
+theorem C03_connect_gating (s : PState) (h : String) (app : AppM) (ha : getApp s h = some app) :
+    (app.state ≠ .unknown ∨ s.now - app.lastAttempt < (AppConnectAttemptBackoff : Int) → considerConnect s h = (s, [])) ∧
+    (app.state = .unknown → s.now - app.lastAttempt ≥ (AppConnectAttemptBackoff : Int) →
+      ∃ r, (considerConnect s h).2 = [r] ∧ r.cat = .preconnect ∧ r.license = app.cfg.license ∧ r.app = h) := by
+  unfold considerConnect
+  simp only [ha]
+  constructor
+  · intro hc
+    rcases hc with hc | hc
+    · have : (app.state == AState.unknown) = false := by cases hst : app.state <;> simp_all
+      simp [this]
+    · have : ¬ (s.now - app.lastAttempt ≥ (AppConnectAttemptBackoff : Int)) := by omega
+      simp [this]
+  · intro hu hb
+    simp [hu, hb]
+
+/-- **C03 (verdicts at connect).**  A 410 makes the application disconnected, a 401 invalid-license; every other
+failure (409, any other status, transport error, malformed reply) leaves it retryable (unknown). -/
+theorem C03_connect_verdicts (s : PState) (h : String) (app : AppM) (ha : getApp s h = some app) (o : Outcome) :
+    let st := ((getApp (connectFailed s h o) h).map (·.state))
+    (o.code = 410 → st = some .disconnected) ∧ (o.code = 401 → st = some .invalidLicense) ∧
+    (o.code ≠ 410 → o.code ≠ 401 → st = some .unknown) := by
+  have hget : ∀ a : AppM, getApp (setApp s h a) h = some a := fun a => getApp_setApp_same s h a
+  simp only [connectFailed, ha, hget, Option.map_some]
+  unfold Gen.Status.isDisconnect Gen.Status.isRestartException Gen.Status.isInvalidLicense
+  refine ⟨?_, ?_, ?_⟩
+  · intro hc; simp [hc]
+  · intro hc; simp [hc]
+  · intro h1 h2
+    by_cases h9 : o.code = 409 <;> simp [h1, h2, h9]
+
+/-- **C03 (data for a run the daemon does not hold is dropped).** -/
+theorem C03_unknown_run_dropped (s : PState) (r : String) (t : TxnM) (h : getRun s r = none) :
+    processTxn s r t = s := by
+  simp [processTxn, h]
+
+/-- **C03 (inactive applications are dropped at the next harvest).** -/
+theorem C03_inactive_dropped (s : PState) (r : String) (run : RunM) (app : AppM) (mask : Nat)
+    (ha : getApp s run.app = some app) (ht : s.appTimeout > 0) (hi : s.now - app.lastActivity ≥ s.appTimeout) :
+    (doHarvest s r run mask).2 = [] ∧ getRun (doHarvest s r run mask).1 r = none ∧
+    getApp (doHarvest s r run mask).1 run.app = none := by
+  have hcond : (decide (s.appTimeout > 0) && decide (s.now - app.lastActivity ≥ s.appTimeout)) = true := by simp [ht, hi]
+  simp only [doHarvest, ha, hcond, if_true]
+  refine ⟨trivial, ?_, ?_⟩
+  · unfold getRun delRun
+    simp only
+    cases hf : (s.runs.filter (·.1 != r)).find? (·.1 == r) with
+    | none => rfl
+    | some p =>
+      have h1 := List.find?_some hf
+      have h2 := List.mem_of_find?_eq_some hf
+      simp only [List.mem_filter] at h2
+      simp_all
+  · unfold getApp delRun
+    simp only
+    cases hf : (s.apps.filter (·.1 != run.app)).find? (·.1 == run.app) with
+    | none => rfl
+    | some p =>
+      have h1 := List.find?_some hf
+      have h2 := List.mem_of_find?_eq_some hf
+      simp only [List.mem_filter] at h2
+      simp_all
